@@ -421,6 +421,13 @@ def rule_facets(ctx):
             s = ctx.S.get(func)
             cache[func] = [(r, _atoms(r)) for r in s.by_kind("raise")]
         hit = None
+        # a facet about a parameter of a *private* (nested / underscore) helper lapses when that parameter is gone:
+        # nothing outside the module can pass the value the check was written for
+        ptoks = [x[2:] for x in (lhs or []) + (rhs or []) if isinstance(x, str) and x.startswith("p:")]
+        private = f.parent is not None or f.name.startswith("_")
+        if private and ptoks and all(p not in f.all_params for p in ptoks):
+            yield ob("C14.FACETS", f, "%s:%s" % (func, name), True, "not applicable: the private helper no longer has the parameter %s this check was about" % ptoks)
+            continue
         for r, atoms in cache[func]:
             if r.exc not in ("ValueError", "InvalidChordException"):
                 continue
